@@ -1,11 +1,15 @@
 """C13 - collection and query functions agree with their reference model.
 
 For every function of queries.py / collections.py (+ unpack, memorize) generated
-pipelines `$.f(...).g(...)...` (<= 4 stages) are evaluated three ways on the same input:
-  real    engine(text).evaluate(data=...) of the yaql under test,
-  ref     the plain-Python transcription of the documented meaning (harness/seqref.py),
-  model   the compiled Lean model (Yaql.Model.Seq / SeqRun) the theorems are about.
-Oracle (failing input): real differs from ref (and the model does not side with real).
+pipelines `$.f(...).g(...)...` (<= 4 stages) - and programs that look at the operand of a persistent update again
+(`let(x => P) -> [$x.insert(..), $x]` ...) - are evaluated three ways on the same input:
+  real    the yaql under test: the SAME text through 2-3 members of an engine family (base engine, engine.copy(options),
+          engine(text, options)) whose options differ, in a context made by create_context(**flags) after a drawn history
+          of other create_context calls in a fresh process,
+  ref     the plain-Python transcription of the documented meaning (harness/seqref.py) under that member's options / flags,
+  model   the compiled Lean model (Yaql.Model.Seq / SeqRun) the theorems are about, under the same option record.
+Oracle (failing input): real differs - type-strictly - from ref (and the model does not side with real); the evaluation
+changed the host's document; a result handed out earlier changed afterwards.
 Mismatch (tie broken): model differs from real although ref agrees with real, or ref is the odd one."""
 import copy
 import json
@@ -53,7 +57,9 @@ REQUIRED_THEOREMS = ['Yaql.Props.C13.' + n for n in (
         'selPair_rows').split()]
 TRUSTED = ["CPython's sorted() is a stable sort (licensed by stable_sort_unique); Python ==/hash on the generated values "
            "is what Value.pyEq / canon model; iteration order of an input set is read from CPython",
-           'harness/seqref.py (plain-Python transcription of the documented meaning, second opinion for every case)']
+           'harness/seqref.py (plain-Python transcription of the documented meaning, second opinion for every case)',
+           'the engine options / create_context flags a member has are what the harness passed when it made it (Opts record '
+           'sent to the model and the reference)']
 ASSUMPTIONS = ['elements are null/bool/int/float/str, nested lists, dicts; floats are finite, and arithmetic on them is predicted '
                'only where the exact result is a double (IEEE arithmetic is correctly rounded); sets and one-shot iterators '
                'in the input only at top level',
@@ -63,7 +69,13 @@ ASSUMPTIONS = ['elements are null/bool/int/float/str, nested lists, dicts; float
                'a generator returned by a lambda is followed through operations that hand elements on once without hashing, '
                'comparing or inspecting them (Op.linear) and into the finaliser; hashing / comparing / consuming it twice, '
                'and a generator that would raise when it is consumed after the lambda returned, are out of domain for the '
-               'Lean model (the plain-Python reference still decides the oracle there)']
+               'Lean model (the plain-Python reference still decides the oracle there)',
+               'option-dependent behaviour INSIDE lambdas (collection methods / + on dictionaries under yaql.iterableDicts or on '
+               'nested collections under a firing yaql.limitIterators, len of a set element under no_sets), a second consumer '
+               'of `$` and generateMany under a limit, unconverted documents with a dictionary below the top level: out of '
+               'domain for the Lean model (reference decides)',
+               'observing programs: the operand is bound once and read 2-3 times; a one-shot iterator or a collection holding '
+               'generators as operand is out of domain']
 
 OPTIONS = {'yaql.convertSetsToLists': True, 'yaql.limitIterators': 10000, 'yaql.memoryQuota': 10000000}
 Opts = seqref.Opts
@@ -880,7 +892,14 @@ FUNCTIONS = list(seqgen.ALL_OPS) + ['obs:' + u for u in seqgen.UPDATERS]
 def run(env, res):
     tier = env['tier']
     use_model = env['driver'] is not None
-    res.rule = ('per function f: pipelines of <= 4 stages containing f, on tuples / sets / dicts / one-shot iterators / '
+    res.rule = ('every case: one text through 2-3 members of an engine family (options iterableDicts / convertTuplesToLists / '
+                'convertSetsToLists / convertInputData / convertOutputData / limitIterators 3-5 differing from the base) in a '
+                'drawn order, in a context made by create_context with drawn flags (group_by_agg_fallback, no_sets, delegates, '
+                'own root) after a drawn history of other create_context calls in a fresh process, compared type-strictly under '
+                'that member\'s options; per updating function u: observing programs let(x => P) -> [$x.u, $x] / [$x.u1, $x.u2, $x] '
+                '/ let(y => $x.u1) -> [$y.u2, $y, $x] / P.select([$.u, $]) / memorized twice, P ending in every producer of lists / '
+                'dicts / sets or empty (the document, also unconverted); '
+                'per function f: pipelines of <= 4 stages containing f, on tuples / sets / dicts / one-shot iterators / '
                 'scalars of size 0..6 with duplicates, nulls, nesting; element profiles include lists of small lists with '
                 'REPEATED and empty inner lists and 1 / 1.0 / true, 0 / 0.0 / false side by side (top level and nested); '
                 'lambdas from the Lam family, on nested profiles len / first / last / single / sum / str / halving and the '
@@ -997,7 +1016,17 @@ LEVEL_TEXT = ('Lean 4 theorems, for collections of EVERY size, about a list-leve
               'silently truncated), equal elements get equal results also when these are lazy sequences.  The model is tied '
               'to the code by running, per function, generated pipelines of <= 4 stages on the real engine, on the compiled '
               'model and on an independent plain-Python transcription of the documented meaning, and comparing finalised '
-              'results / exception classes three ways.')
+              'results / exception classes three ways.  The model takes the record of engine options and create_context flags '
+              'the functions and the finaliser depend on (Opts: iterableDicts, convertTuplesToLists, convertSetsToLists, '
+              'convertInputData, convertOutputData, limitIterators; group_by_agg_fallback, no_sets) - theorems: a dictionary '
+              'is a collection exactly under iterableDicts, the limiter raises exactly on over-long collections after exactly n '
+              'elements, the finaliser hands out no generator and (with convertTuplesToLists) no tuple, converted input holds no '
+              'mutable list and is hashable; every case sends one text through several members of an engine family in a context '
+              'made after a drawn history of create_context calls and compares type-strictly under that member\'s record.  '
+              'Persistent updates: for every update, pipeline, document and option record the last component of an observing '
+              'program let(x => P) -> [$x.u(..), .., $x] is what P alone returns and its first component what P.u(..) returns '
+              '(observed_operand_is_pipeline_result, observed_update_is_unobserved_update); such programs are generated over '
+              'the results of every list / dict / set producer and over the unconverted document.')
 LEVEL_NOTE = ('trusted: Lean kernel; the hand-written model Yaql/Model/Seq.lean + SeqRun.lean (lambdas restricted to the closed '
               'family Lam/Lam2; Python ==/hash modelled by a canonical form; lazy sequences as "items then optional '
               'exception"; doubles by exact integer arithmetic on their bits, predicted only where the exact result is a '
